@@ -436,6 +436,106 @@ theorem forest_auth_path_chain (n : Nat) (hn : n < 2^63) (d : Nat) (c : Nat → 
   exact TF.MmrE.get_auth_path_ancestor l j d _ (by omega)
     (fun t ht => by rw [← hall t (by omega)]; exact (forest_idx_le n hn _ _ (hrows t (by omega))).2)
 
+/-! ## the result on the explicit forest for an arbitrary second argument -/
+
+/-- node counts add up over disjoint bit ranges -/
+theorem nodesOf_add_low (A a B : Nat) (hB : B < 2^a) : nodesOf (A * 2^a + B) = nodesOf (A * 2^a) + nodesOf B := by
+  unfold nodesOf
+  have hpos := Nat.two_pow_pos a
+  have h1 : (A * 2^a + B) / 2^a = A := by
+    rw [Nat.mul_comm, Nat.mul_add_div hpos, Nat.div_eq_of_lt hB]; omega
+  have h2 : (A * 2^a + B) % 2^a = B := by
+    rw [Nat.mul_comm, Nat.mul_add_mod, Nat.mod_eq_of_lt hB]
+  rw [popCount_split a (A * 2^a + B), h1, h2, popCount_mul_two_pow]
+  have := popCount_le A
+  have := popCount_le B
+  have : A ≤ A * 2^a := Nat.le_mul_of_pos_right _ hpos
+  omega
+
+/-- the would-be parent of the peak for the set bit `b` of `n` is not a node of the forest -/
+theorem peak_parent_gt (n b : Nat) (hb : n / 2^b % 2 = 1) : nodesOf n < nodeIdx (b+1) (n / 2^(b+1)) := by
+  have h1 := Nat.div_add_mod n (2^(b+1))
+  have h2 := mod_two_pow_succ n b
+  rw [hb, Nat.mul_one] at h2
+  have hlt := Nat.mod_lt n (Nat.two_pow_pos b)
+  have hlt1 := Nat.mod_lt n (Nat.two_pow_pos (b+1))
+  have e : n = n / 2^(b+1) * 2^(b+1) + n % 2^(b+1) := by rw [Nat.mul_comm]; omega
+  have hs := nodesOf_add_low (n / 2^(b+1)) (b+1) (n % 2^(b+1)) hlt1
+  rw [← e] at hs
+  have hlow : nodesOf (n % 2^(b+1)) = 2^(b+1) - 1 + nodesOf (n % 2^b) := by
+    rw [h2]; exact nodesOf_two_pow_add b _ hlt
+  have hle := nodesOf_le (n % 2^b)
+  have hp := two_pow_succ' b
+  have hp2 : 2^(b+1+1) = 2 * 2^(b+1) := two_pow_succ' (b+1)
+  rw [nodeIdx_eq_nodesOf]
+  omega
+/-- **`get_authentication_path_node_indices` on the explicit forest, exactly**: for a node `r` of the forest with
+    `n < 2^63` leaves (coordinates `(r.height, j)`, its tree belonging to bit `b` of `n`), the node count of the forest
+    and an *arbitrary* second argument `p`: the result is `Some(path)` iff `p` is the node itself, one of its
+    ancestors inside its tree (up to the peak, `b − r.height` levels up), **or the would-be parent of the peak** (one
+    level further, a node index that is not in the forest — the Rust code does not notice); `None` in every other
+    case (in particular for nodes of other trees and for non-ancestors inside the same tree) -/
+theorem forest_auth_path_exact (n : Nat) (hn : n < 2^63) (k : Nat) (r : Row) (hr : (k, r) ∈ (forest n).rows) :
+    ∃ b j, r.idx = nodeIdx r.height j ∧ r.height ≤ b ∧
+      ((forest n).peaks.map TF.Spec.Mmr.Tree.idx)[k]? = some (anc r.height j (b - r.height)) ∧
+      (∀ p path, get_authentication_path_node_indices r.idx p (forest n).nodes = some (some path) ↔
+         ∃ d, d ≤ b - r.height + 1 ∧ anc r.height j d = p ∧ path = sibsUp r.height j d) ∧
+      (∀ p, get_authentication_path_node_indices r.idx p (forest n).nodes = some none ↔
+         ∀ d, d ≤ b - r.height + 1 → anc r.height j d ≠ p) := by
+  obtain ⟨b, j, hb, _, hle, hdiv, hidx, hpk, hancle, _, _, _⟩ := forest_row_facts n hn k r hr
+  refine ⟨b, j, hidx, hle, hpk, ?_⟩
+  generalize r.height = l at *
+  obtain ⟨D, hD⟩ : ∃ D, b - l = D := ⟨_, rfl⟩
+  rw [hD] at hdiv hancle ⊢
+  have hnodes : (forest n).nodes = nodesOf n := by rw [forest_eq]
+  have hnle := nodesOf_le n
+  have h64 : (2:Nat)^64 = 2 * 2^63 := by decide
+  have hblk := block_le n b hb
+  have hb62 : b < 63 := by
+    apply pow_lt_pow_imp
+    have : 2^b ≤ (2 * (n / 2^(b+1)) + 1) * 2^b := Nat.le_mul_of_pos_left _ (by omega)
+    omega
+  have hgt : (forest n).nodes < anc l j (D + 1) := by
+    have e : anc l j (D + 1) = nodeIdx (b + 1) (n / 2^(b+1)) := by
+      unfold TF.MmrE.anc
+      rw [Nat.pow_succ, ← Nat.div_div_eq_div_mul, hdiv]
+      have : 2 * (n / 2^(b+1)) / 2 = n / 2^(b+1) := by omega
+      rw [this]; congr 1; omega
+    rw [e, hnodes]; exact peak_parent_gt n b hb
+  have key : ∀ d, (∀ t, t < d → anc l j t ≤ (forest n).nodes) ↔ d ≤ D + 1 := by
+    intro d
+    constructor
+    · intro h
+      by_contra hc
+      have := h (D + 1) (by omega)
+      omega
+    · intro h t ht
+      have := TF.MmrE.anc_mono l j (a := t) (b := D) (by omega)
+      omega
+  have hlt : nodeIdx l j < 2^64 := by
+    have := TF.MmrE.anc_mono l j (a := 0) (b := D) (by omega)
+    rw [TF.MmrE.anc_zero] at this
+    omega
+  have hnc : (forest n).nodes < 2^64 - 1 := by omega
+  rw [hidx]
+  constructor
+  · intro p path
+    rw [TF.MmrE.get_auth_path_some_iff l j p _ hlt hnc path]
+    constructor
+    · rintro ⟨d, _, hp, hbelow, hpath⟩
+      exact ⟨d, (key d).mp hbelow, hp, hpath⟩
+    · rintro ⟨d, hd, hp, hpath⟩
+      exact ⟨d, by omega, hp, (key d).mpr hd, hpath⟩
+  · intro p
+    rw [TF.MmrE.get_auth_path_none_iff l j p _ hlt hnc]
+    constructor
+    · intro h d hd hp
+      obtain ⟨t, ht, hnt⟩ := h d (by omega) hp
+      have := (key d).mpr hd t ht
+      omega
+    · intro h d _ hp
+      have hd : ¬ d ≤ D + 1 := fun hc => h d hc hp
+      exact ⟨D + 1, by omega, hgt⟩
 /-- in the table of a root, a row without parent has no sibling either, and a leaf-level row has no children -/
 theorem forest_row_zero_cols (n : Nat) (hn : n < 2^63) (k : Nat) (r : Row) (hr : (k, r) ∈ (forest n).rows) :
     (r.parent = 0 → r.sibling = 0) ∧ (r.height = 0 → r.left = 0) := by
